@@ -228,6 +228,12 @@ public:
 			negated.setsign(false);
 			return *this += negated;
 		}
+		if (sign()) { // (-a) - b = -(a + b)
+			setsign(false);
+			*this += rhs;
+			setsign(!iszero());
+			return *this;
+		}
 		auto lhsSize = _block.size();
 		if (lhsSize == 0) {
 			*this = -rhs;
